@@ -3,7 +3,7 @@ CONSTANTS
   MaxBlocks = 2
   MaxReqs = 2
   Templates = {"o23", "jmp", "d3"}
-  PatchKinds = {"plain2", "plain7", "bytes"}
+  PatchKinds = {"plain2", "plain7", "bytes", "datasec"}
   FnLayouts = {"none"}
   EndSyms = {FALSE}
   NoSyms = {FALSE}
